@@ -479,6 +479,9 @@ class C11(Property):
                    "ops": [["addn", 0, 0, 1, 20], ["add", 1, 0, 5001, 1], ["shutdown"], ["add", 0, 1, 21, 1], ["add", 1, 1, 5002, 1],
                            ["rel", 0, 0], ["add", 1, 0, 5003, 1], ["rel", 1, 0], ["relall"], ["clock", 10001], ["tick", 1], ["tick", 1],
                            ["tick", 0], ["add", 1, 0, 5004, 1], ["clock", idle], ["tick", 0], ["tick", 0], ["add", 0, 0, 22, 1]]})
+        # the idle limit is interval * idleRound: idle ticks below it (clock 5000, 10000) keep the flusher, 10001 makes it quit
+        cs.append(single("bulk", 3, 2, [["add", 0, 1, 1], ["tick"], ["rel", 0], ["clock", 5000], ["tick"], ["clock", 5000], ["tick"],
+                                        ["add", 1, 2, 1], ["clock", 1], ["tick"], ["rel", 0], ["clock", 10001], ["tick"], ["add", 0, 3, 1]]))
         # chunk tasks of declared size 0 only (seeded change C11-5: RemoveAll answers nil while size == 0): Flush, tick, Wait
         cs.append(single("chunk", 4, 2, [["add", 0, 1, 0], ["add", 1, 2, 0], ["flush", 0], ["rel", 0], ["add", 0, 3, 0], ["tick"], ["rel", 0],
                                          ["add", 0, 4, 0], ["wait", 1], ["rel", 0], ["add", 1, 5, 0], ["wait", 0, 1], ["rel", 0]]))
